@@ -225,7 +225,7 @@ class Merged:
         self.traces += res.get("traces", 0)
         self.violation_count += res.get("violation_count", 0)
         for s in res.get("samples", []):
-            if len(self.samples) < 12 and s not in self.samples:
+            if len(self.samples) < 16 and s not in self.samples:
                 self.samples.append(s)
         for t, (hx, n) in res.get("out_sums", {}).items():
             cur = self.out_sums.get(t, [0, 0])
